@@ -262,10 +262,11 @@ class Program:
 
 
 # ---- generic tree walking ----------------------------------------------------------------
-def inline_void_helpers(prog):
+def inline_void_helpers(prog, only=None):
     """A block of statements that was extracted into a file-local `void` helper is the same code: a call statement `helper(a, b);` of a free, non-recursive void function defined
     in the same file, whose parameters are neither assigned nor have their address taken and which has no `return` before its end, is replaced by the helper's body with the
-    parameters substituted by the argument expressions (locals of the helper renamed).  The helper itself stays in the program.  Returns the list of (caller, helper, line)."""
+    parameters substituted by the argument expressions (locals of the helper renamed).  The helper itself stays in the program.  Returns the list of (caller, helper, line).
+    With `only` (a function record) nothing in the program is changed: a copy of that one function with the helper calls replaced is returned (None when there is nothing to inline)."""
     import copy
     done = []
     helpers = {}
@@ -294,7 +295,7 @@ def inline_void_helpers(prog):
         if ok and stmts:
             helpers[(g['qname'], os.path.basename(g['file']))] = (g, pn, [st for st in stmts if not (st.get('k') == 'Return')])
     if not helpers:
-        return done
+        return done if only is None else None
 
     def subst(node, amap, suffix, locals_):
         if isinstance(node, list):
@@ -331,6 +332,12 @@ def inline_void_helpers(prog):
             return s
         return {k: (rewrite(f, v, counter) if k in ('body', 't', 'e', 'sub', 'handlers', 'cases') or (k == 'e' and s.get('k') in ('If',)) else v) for k, v in s.items()}
     counter = [0]
+    if only is not None:
+        if only.get('body') is None or not any(x.get('k') == 'Call' and (x.get('callee'), os.path.basename(only['file'])) in helpers for x in walk(only['body'])):
+            return None
+        g = dict(only)
+        g['body'] = rewrite(only, only['body'], counter)
+        return g if done else None
     for f in prog.functions.values():
         if f.get('body') is None or not any(x.get('k') == 'Call' and (x.get('callee'), os.path.basename(f['file'])) in helpers for x in walk(f['body'])):
             continue
